@@ -8,7 +8,7 @@ Instruction word (16 bit), memory reference part in the low byte:
     1 0 I D N 0 0 R  indirect through AR(ARP):  I = 1 post-increment (*+), D = 1 post-decrement (*-),
                      N = 0 load ARP with R afterwards (written as a further operand), N = 1 ARP unchanged
     ADD/SUB/LAC  oooo ssss m        shift 0..15
-    SACH         0101 1 sss m       shift 0, 1 or 4 only;   SACL 0101 0000 m (no shift)
+    SACH         0101 1 sss m       shift 0, 1 or 4 only;   SACL 0101 0000 m (same operand syntax, the only shift is 0)
     IN / OUT     0100 0 ppp m / 0100 1 ppp m        port 0..7
     LAR / SAR    0011 100r m / 0011 000r m;  LARK 0111 000r kkkkkkkk;  LARP = MAR *,k = 0110 1000 1000 000k
     LACK 0111 1110 kkkkkkkk;  LDPK 0110 1110 0000 000k;  MPYK 100 k(13 bit two's complement)
